@@ -1,6 +1,7 @@
 """C07 - the answer does not depend on how the items are presented."""
 import random
 from runtime import harness as H
+from props import _ded as D
 from runtime import t3_misc as T
 from props._algos import partition_calls, pack_calls
 
@@ -26,4 +27,6 @@ def t3(rep, tier, seed):
 def run(rep, tier, seed):
     rep.level = "exploration"
     rep.assume("A1", "A4", "A6", "A7", "A8")
+    D.run_contracts(rep, "C07", D.PART_HEUR + D.FIT + D.COVER + D.TQ + D.exact() + D.CBLDM, tier, with_lemmas=False, only_tagged=True)
     t3(rep, tier, seed)
+    D.link_falsifier(rep)
